@@ -501,6 +501,10 @@ func runCrash(r *report.Run, idx int, sc *script, cc crashCase) {
 		_ = json.Unmarshal(b, &vo)
 	}
 	ctx := cc.Point
+	if vo.OpenErr != "" {
+		r.Violation("c08.crash.reopen-failed:"+ctx+":"+errClass(vo.OpenErr), fmt.Sprintf("NewStore fails after a kill at %s (during %s): %s", cc.Point, inflight, vo.OpenErr), wit(nil))
+		return
+	}
 	if verr != nil || vo.Stage != "done" {
 		r.Violation("c08.crash.restart-died:"+ctx+":stage-"+vo.Stage+":"+fatalClass(vout),
 			fmt.Sprintf("the process reopening the store after a kill at %s (hit %d, during %s) died in stage %q: %s", cc.Point, cc.Hit, inflight, vo.Stage, tailText(vout, 20)), wit(nil))
